@@ -182,4 +182,22 @@ def denote (lay : Layout) (lines : List Bytes) : Option Denotation :=
                hits := shits.map (fun h => ⟨h.col, h.sample, T h.snap⟩),
                holds := sholds.map (fun h => ⟨h.col, h.sample, T h.head, T h.tail - T h.head⟩) }
 
+/-! ### syntax of a data line (C05: "every line is syntactically valid") -/
+
+def isB36 (c : Char) : Bool := isDigit c || (decide ('A' ≤ c) && decide (c ≤ 'Z'))
+
+/-- `#mmmcc:` followed by a non-empty even number of base-36 characters -/
+def lineValid (l : Bytes) : Bool :=
+  match l with
+  | '#' :: m1 :: m2 :: m3 :: c1 :: c2 :: ':' :: data =>
+    isDigit m1 && isDigit m2 && isDigit m3 && isB36 c1 && isB36 c2 &&
+    !data.isEmpty && data.length % 2 = 0 && data.all isB36
+  | _ => false
+
+/-- is this line of a written file a data line (as opposed to a header / empty line)? -/
+def isDataLine (l : Bytes) : Bool :=
+  match l with
+  | '#' :: c :: _ => isDigit c && !(l.contains ' ')
+  | _ => false
+
 end Reamber.BMS
